@@ -125,3 +125,7 @@ ALLFULL = ("C01.fullmask", "forall(p, 0, P, fullmask(p))")
 ACC_K = lambda S, T, last: f"forall(p, 0, P, implies({NEs}[{TOP}, p] and onpoint({S}, {TOP}, p) and (not {T}[p] or p == {last}), rel_holds(p)))"
 # J: a disabled constraint holds on every point of the current box (specialised to sigma)
 ACC_J = lambda S: f"forall(p, 0, P, implies(not {NEs}[{TOP}, p] and in_box({S}, {TOP}), rel_holds(p)))"
+# A: every enabled constraint whose variables are all instantiated to sigma holds on sigma (K with an empty queue)
+ACC_A = lambda S: f"forall(p, 0, P, implies({NEs}[{TOP}, p] and onpoint({S}, {TOP}, p), rel_holds(p)))"
+ACC_REQ = [ALLFULL, ("C01.K0", ACC_K(SS, "triggered_propagators", "-1")), ("C01.J0", ACC_J(SS))]
+ACC_ENS = [("C01.accept", f"implies(result != PROBLEM_INCONSISTENT, {ACC_A(SS)})"), ("C01.J", f"implies(result != PROBLEM_INCONSISTENT, {ACC_J(SS)})")]
